@@ -44,13 +44,63 @@ class Disposables:
             case multiple:
                 return multiple
 
+    async def _dispose(
+        self,
+        disposables: Iterable[Disposable],
+        /,
+        exc_type: type[BaseException] | None,
+        exc_val: BaseException | None,
+        exc_tb: TracebackType | None,
+    ) -> list[BaseException]:
+        results: list[bool | BaseException | None] = await gather(
+            *[
+                disposable.__aexit__(
+                    exc_type,
+                    exc_val,
+                    exc_tb,
+                )
+                for disposable in disposables
+            ],
+            return_exceptions=True,
+        )
+
+        return [exc for exc in results if isinstance(exc, BaseException)]
+
     async def __aenter__(self) -> Iterable[State]:
+        entered: list[Disposable] = []
+
+        async def initialize(
+            disposable: Disposable,
+            /,
+        ) -> Iterable[State]:
+            state: Iterable[State] = await self._initialize(disposable)
+            entered.append(disposable)
+            return state
+
+        try:
+            results: list[Iterable[State] | BaseException] = await gather(
+                *[initialize(disposable) for disposable in self._disposables],
+                return_exceptions=True,
+            )
+
+        except BaseException as exc:  # cancelled when entering
+            await self._dispose(entered, type(exc), exc, exc.__traceback__)
+            raise
+
+        exceptions: list[BaseException] = [exc for exc in results if isinstance(exc, BaseException)]
+        if exceptions:
+            error: BaseException = (
+                exceptions[0]
+                if len(exceptions) == 1
+                else BaseExceptionGroup("Disposables entering errors", exceptions)
+            )
+            # make sure to dispose all that were already entered
+            await self._dispose(entered, type(error), error, error.__traceback__)
+            raise error
+
         return [
             *chain.from_iterable(
-                state
-                for state in await gather(
-                    *[self._initialize(disposable) for disposable in self._disposables],
-                )
+                state for state in results if not isinstance(state, BaseException)
             )
         ]
 
@@ -60,19 +110,12 @@ class Disposables:
         exc_val: BaseException | None,
         exc_tb: TracebackType | None,
     ) -> None:
-        results: list[bool | BaseException | None] = await gather(
-            *[
-                disposable.__aexit__(
-                    exc_type,
-                    exc_val,
-                    exc_tb,
-                )
-                for disposable in self._disposables
-            ],
-            return_exceptions=True,
+        exceptions: list[BaseException] = await self._dispose(
+            self._disposables,
+            exc_type,
+            exc_val,
+            exc_tb,
         )
-
-        exceptions: list[BaseException] = [exc for exc in results if isinstance(exc, BaseException)]
 
         if len(exceptions) == 1:
             raise exceptions[0]
